@@ -51,7 +51,7 @@ CHECKS = {
  "C08": dict(engine="projsim", level="exploration", section="4 C08", technique="grammar-based property testing (rapid) in child processes: terminates-without-crash oracle, determinism across processes, metamorphic change detection",
    text="BUILD files generated from a grammar of value and function kinds (recursion, mutual recursion, closures, defaults, nested defs, big and cyclic data, "
         "predeclared values) are built in fresh child processes with a 64 MB stack cap: the first build must exit normally without an environment error, a "
-        "second process must evaluate nothing (also on a copy of the project at another path), and a third must re-evaluate the target exactly when a referenced item was mutated (constants, code, defaults, captured values, parameter lists, rebound builtins). Item kinds include globals bound to methods of values (mutation: another receiver) and values of other kinds (ranges, the views returned by string and bytes methods; mutation: another value, or the same elements as another kind), and integer alias pairs (v and v - 2^64).",
+        "second process must evaluate nothing (also on a copy of the project at another path), and a third must re-evaluate the target exactly when a referenced item was mutated (constants, code, defaults, captured values, parameter lists, rebound builtins). Item kinds include globals bound to methods of values (mutation: another receiver) and values of other kinds (ranges, the views returned by string and bytes methods; mutation: another value, or the same elements as another kind), the same definitions in another order with their uses swapped too (globals, captured variables, universals), a builtin and the string that spells its name, and integer alias pairs (v and v - 2^64).",
    note="Programs are bounded by the grammar (<= ~60 lines); the os/sh/json modules of the CLI are not injected in the child processes."),
  "C09": dict(engine="cosched", level="exploration", section="4 C09", technique="schedule exploration (rapid) over configurations: limits 1,2,3,4,16 via CPU affinity, invariant on a harness counter of executing targets",
    text="Shards run under taskset with 1,2,3,4 and 16 CPUs (the runner's limit is runtime.NumCPU); graphs are biased to fans wider than the limit. The harness "
